@@ -113,7 +113,7 @@ class TlcResult:
 
 
 def run_tlc(name, module, cfg_text, workers=8, timeout=900, simulate=None, depth=None, seed=None,
-            env_extra=None, java_opts=None, tags=("CASE",), coverage=False, xmx="6g"):
+            env_extra=None, java_opts=None, tags=("CASE",), coverage=False, xmx="6g", generated_module=None):
     """Run TLC on spec/<module>.tla with the given cfg text. Returns TlcResult.
     Lines printed by the spec as <<"TAG", "json">> are collected under result.lines[TAG]."""
     d = os.path.join(BUILD, "tlc", name)
@@ -136,7 +136,14 @@ def run_tlc(name, module, cfg_text, workers=8, timeout=900, simulate=None, depth
             cmd += ["-depth", str(depth)]
     if seed is not None:
         cmd += ["-seed", str(seed)]
-    cmd += [os.path.join(SPEC, module + ".tla")]
+    if generated_module is not None:
+        # a module generated for this run (constants from measurements): lives next to the cfg, extends modules of spec/
+        with open(os.path.join(d, module + ".tla"), "w") as f:
+            f.write(generated_module)
+        cmd.insert(1, "-DTLA-Library=" + SPEC)
+        cmd += [os.path.join(d, module + ".tla")]
+    else:
+        cmd += [os.path.join(SPEC, module + ".tla")]
     e = env_offline()
     if env_extra:
         e.update(env_extra)
